@@ -12,6 +12,9 @@ import (
 
 const ZZ = "github.com/csgura/fp/internal/zzverif."
 
+// ZZScratch: the same intrinsics when the harness lives in a scratch module outside the fp module
+const ZZScratch = "scratchmod/zzverif."
+
 type extFn func(m *Machine, caller *frame, fn *ssa.Function, args []Value) Value
 
 var externals map[string]extFn
